@@ -7,14 +7,16 @@ from vlib import genome as G, pipeline as P
 ID = "C02"
 RULE = ("Pipeline cases: 1-2 contigs (400-1200 bp), well separated variants of all four types (gap >= 30 bp), 1-3 samples "
         "with their own read groups and true diploid haplotypes; reads are error-free copies of a random haplotype "
-        "(60-350 bp, single or paired, soft clips, =/X CIGARs; boundaries never cut a variant), depth 2-25 with "
+        "(60-350 bp, single or paired, soft clips, =/X CIGARs; boundaries never cut a variant, except that a sixth of the reads "
+        "end or start inside the REF allele of a deletion/MNP their haplotype does not carry), depth 2-25 with "
         "--internal-downsampling drawn from 2..15 so that the cap binds; options --tag PS|HP, --only-snvs, --sample and "
         "--chromosome subsets. Oracle: for every selected sample and every phase set of the output (decoded with pysam), "
-        "the phased alleles equal the true haplotype pair or its swap, one choice per phase set. Non-trivial = at least "
+        "the phased alleles equal the true haplotype pair or its swap, one choice per phase set; in the traced solver instances every "
+        "read allele equals the allele of the haplotype the read was copied from and the optimal cost is 0. Non-trivial = at least "
         "one phase set with >= 2 variants. Distinct = distinct generated case.")
 ASSUMPTIONS = [
     "default exact algorithm, trusted genotypes, with reference; --distrust-genotypes / --merge-reads / other algorithms are outside the stated domain",
-    "variants are separated by more than the re-alignment window and no read boundary cuts a variant (partial overlaps are C06's subject)",
+    "variants are separated by more than the re-alignment window and no read boundary cuts a variant, except inside the REF allele of a deletion/MNP on a REF-carrying haplotype (>= 2 REF bases kept at a read end), where REF is the only allele at distance 0",
 ]
 
 
@@ -27,7 +29,55 @@ def gen(draw):
             "chromosomes": draw(st.sampled_from([None, None] + [[c] for c in chroms])),
             "max_coverage": draw(st.sampled_from([2, 3, 4, 5, 8, 15, 15]))}
     case["opts"] = opts
+    # reads of a REF-carrying haplotype may end (after >= 2 bases) or start inside the REF allele of a deletion / MNP
+    for sp in case["read_specs"]:
+        if draw(st.integers(0, 5)) != 0:
+            continue
+        seg = sp["pair"] if "pair" in sp else sp["segments"][-1]
+        hap = case["haps"][sp["sample"]][sp["chrom"]][sp["hap"]]
+        cands = [(vi, v) for vi, v in enumerate(case["variants"][sp["chrom"]])
+                 if len(v["ref"]) >= 2 and hap[vi] == 0 and seg[0] + 6 <= v["pos"] and v["pos"] + len(v["ref"]) <= seg[1]]
+        if cands:
+            vi, v = cands[draw(st.integers(0, len(cands) - 1))]
+            seg[1] = v["pos"] + draw(st.integers(2, len(v["ref"])))
+            sp["cut_end_in_ref"] = vi
+            continue
+        seg = sp["segments"][0]
+        cands = [(vi, v) for vi, v in enumerate(case["variants"][sp["chrom"]])
+                 if len(v["ref"]) >= 2 and hap[vi] == 0 and seg[0] <= v["pos"] and v["pos"] + len(v["ref"]) + 6 <= seg[1]]
+        if cands:
+            vi, v = cands[draw(st.integers(0, len(cands) - 1))]
+            seg[0] = v["pos"] + draw(st.integers(1, len(v["ref"]) - 1))
+            sp["cut_start_in_ref"] = vi
     return case
+
+
+def check_read_alleles(case, trace, ctx, sigprefix="truth"):
+    """every allele the solver saw on a read is the allele of the haplotype the read was copied from; the optimum costs nothing"""
+    spec = {sp["name"]: sp for sp in case["read_specs"]}
+    index = {c["name"]: {v["pos"]: vi for vi, v in enumerate(case["variants"][c["name"]])} for c in case["contigs"]}
+    cut_seen = False
+    for t in trace:
+        for r in t["reads"]:
+            sp = spec.get(r["name"])
+            if sp is None:
+                ctx.violation(sigprefix + ":unknown-read", "read %r in the solver instance was never written" % r["name"])
+                continue
+            hap = case["haps"][sp["sample"]][sp["chrom"]][sp["hap"]]
+            for pos, allele, q in r["variants"]:
+                vi = index[t["chromosome"]].get(pos)
+                if vi is None:
+                    continue
+                if sp.get("cut_end_in_ref") == vi or sp.get("cut_start_in_ref") == vi:
+                    cut_seen = True
+                if allele != hap[vi]:
+                    v = case["variants"][t["chromosome"]][vi]
+                    ctx.violation(sigprefix + ":read-allele:" + G.vtype(v) + (":cut" if vi in (sp.get("cut_end_in_ref"), sp.get("cut_start_in_ref")) else ""),
+                                  "read %s is an error-free copy of haplotype %d of %s (allele %d at %s:%d) but entered the solver with allele %d" % (
+                                      r["name"], sp["hap"], sp["sample"], hap[vi], t["chromosome"], pos + 1, allele))
+        if t["cost"] != 0:
+            ctx.violation(sigprefix + ":nonzero-cost", "error-free reads, yet the optimal cost on %s family %r is %r" % (t["chromosome"], t["family"], t["cost"]))
+    return cut_seen
 
 
 def check_truth(case, out, ctx, samples, chroms, only_snvs, sigprefix="truth"):
@@ -100,6 +150,8 @@ class TruthPart:
         samples = o["samples"] or case["samples"]
         chroms = o["chromosomes"] or [c["name"] for c in case["contigs"]]
         n, types = check_truth(case, out, ctx, samples, chroms, o["only_snvs"])
+        if check_read_alleles(case, trace, ctx):
+            ctx.label("allele-from-read-cut-inside-REF")
         ctx.nontrivial(n >= 1)
         ctx.label("tag-" + o["tag"])
         for t in types:
